@@ -301,6 +301,63 @@ Theorem C13_range_readable_iff :
 Proof. exact range_readable_iff. Qed.
 Print Assumptions C13_range_readable_iff.
 
+(** Event data is the recorded log's own: the two fields of a 16-byte record are ARBITRARY
+    numbers below 2^64 (a length of 2^64 - 1, or one with which "offset + length" wraps around
+    to a small number, included), in either field order.  Whatever they are, every chunk the
+    analysis reads from the image is a non-empty range of physical addresses wholly inside the
+    window [4 GiB - image size, 4 GiB), no longer than the image - stated in unbounded
+    arithmetic, so no sum taken modulo 2^64 hides behind it: for every event, every
+    measurement or none, every image size up to 4 GiB. *)
+Theorem C13_explainer_reads_inside_window :
+  forall e isz m p,
+  0 < isz <= PHYS_ADDR_BASE ->
+  parse_event_data e isz = Ok p ->
+  Forall (chunk_inside isz) (ranges_to_chunks isz m (pr_ranges p) []).
+Proof. exact explain_chunks_inside. Qed.
+Print Assumptions C13_explainer_reads_inside_window.
+
+(** ... and rangesToChunks does not lean on the parser for it: handed ANY list of (offset,
+    length) numbers (what a parser that checked nothing would return), every image chunk it
+    makes at a physical address lies inside the window. *)
+Theorem C13_fit_test_inside_window_any_ranges :
+  forall isz m ranges,
+  0 < isz <= PHYS_ADDR_BASE ->
+  Forall (fun c => match c with ChImage true _ _ => chunk_inside isz c | _ => True end)
+         (ranges_to_chunks isz m ranges []).
+Proof. exact ranges_to_chunks_inside_any. Qed.
+Print Assumptions C13_fit_test_inside_window_any_ranges.
+
+(** the definition is not vacuous: a kept chunk and the bounds it satisfies *)
+Example C13_reads_inside_window_example :
+  ranges_to_chunks w_isz None [(4294905856, 16); (w_wide_off, w_wide_len)] [] = [ChImage true 4294905856 16] /\
+  chunk_inside w_isz (ChImage true 4294905856 16) /\
+  ~ chunk_inside w_isz (ChImage true w_wide_off w_wide_len).
+Proof.
+  split; [vm_compute; reflexivity|]. split.
+  - cbn [chunk_inside]. unfold w_isz, PHYS_ADDR_BASE. repeat split; lia.
+  - cbn [chunk_inside]. unfold w_isz, w_wide_off, w_wide_len, PHYS_ADDR_BASE. lia.
+Qed.
+
+(** Records with a 64-bit length on the model: an address of the window (image offset
+    0x1000) next to 2^64 - 0x1000 + 0x10 (image offset + length is 0x10 modulo 2^64), in both
+    field orders, and next to 2^64 - 1: not a (length, offset) pair of the format - nothing
+    is parsed -, the entry is reported as a mismatch when paired and as unexpected when
+    inserted; the fit test drops such a range on its own although its wrapped end "fits". *)
+Example C13_wide_records_reported :
+  (forall d, In d [w_wide_off_first; w_wide_len_first; w_wide_max] ->
+     (exists rs, reproduce w_hp 4 w_isz false w_cmds w_evlog (Some (w_log_wide d)) 4 w_st ([false], [false])
+                 = Ok (rs, [IMismatch 0], None) /\ map re_status rs = [StMismatch]) /\
+     (exists rs, reproduce w_hp 4 w_isz false w_cmds w_evlog (Some (w_log_wide_ins d)) 4 w_st ([true; false], [false])
+                 = Ok (rs, [IUnexpected 0], None) /\ map re_status rs = [StUnexpected; StMatch]) /\
+     (forall p, parse_event_data (mkEv 0 EV_POST_CODE d (Some (mkDg 4 (w_dg 2)))) w_isz = Ok p -> pr_ranges p = [])) /\
+  wrap64 (image_offset w_isz true w_wide_off + w_wide_len) = 16 /\
+  ranges_to_chunks w_isz (Some w_meas) [(w_wide_off, w_wide_len); (w_wide_off, 2 ^ 64 - 1)] [] = [].
+Proof.
+  split; [|split; [apply witness_wide_fields|apply witness_wide_dropped_by_fit_test]].
+  intros d Hd. split; [exact (witness_wide_paired d Hd)|]. split; [exact (witness_wide_unexpected d Hd)|].
+  intros p E. exact (witness_wide_not_a_pair d p Hd E).
+Qed.
+
 (** The inputs of the repaired defects, on the model of the repaired code.
     D20 (was C13_no_panic_refuted): a recorded EV_POST_CODE entry with a wrong digest and
     TWO (length,offset) pairs in its data, paired with a measurement of ONE reference, is a
